@@ -788,6 +788,15 @@ def r43(text):
     return text, n
 
 
+@rule("R46", "`X.iter().all(u8::is_ascii_digit)` / `X.iter().all(|b| b.is_ascii_digit())` / `X.bytes().all(|b| b.is_ascii_digit())` -> "
+             "`crate::strs::slice_all_ascii_digits(X)` (for the `bytes()` form: of `X.as_bytes()`): a VERIFIED definitional implementation in the prelude "
+             "(a loop over the bytes; true for the empty slice, as `Iterator::all`).")
+def r46(text):
+    t, n1 = re.subn(r"\b([\w\.]+?)\s*\.iter\(\)\s*\.all\(\s*(?:u8::is_ascii_digit|\|\s*&?\s*(\w+)\s*\|\s*\2\.is_ascii_digit\(\))\s*\)", r"crate::strs::slice_all_ascii_digits(\1)", text)
+    t, n2 = re.subn(r"\b([\w\.]+?)\s*\.bytes\(\)\s*\.all\(\s*\|\s*&?\s*(\w+)\s*\|\s*\2\.is_ascii_digit\(\)\s*\)", r"crate::strs::slice_all_ascii_digits(\1.as_bytes())", t)
+    return t, n1 + n2
+
+
 @rule("R39", "Definition of Option::map_or with a closure: `X.map_or(D, |p| E)` -> `match X { Some(p) => E, None => D }`.")
 def r39(text):
     n = 0
